@@ -259,6 +259,13 @@ def Peer.incrIf (want : Nat) (x : Peer) : Peer :=
 def Peer.decrIf (id : Nat) (x : Peer) : Peer :=
   if x.id = id then { x with numPending := x.numPending - 1 } else x
 
+/-- one iteration of `makeRequestersRoutine`: no new requester while `numPending` or the number
+of requesters is at its limit (it sleeps and looks for timed-out peers instead) -/
+def Pool.routineStep (p : Pool) : Pool :=
+  if p.numPending ≥ Facts.c13_maxPendingRequests then p
+  else if (p.requesters.length : Int) ≥ Facts.c13_maxTotalRequesters then p
+  else p.makeNextRequester
+
 /-- the test of `pickIncrAvailablePeer` for one peer -/
 def Peer.available (q : Peer) (h : Int) : Bool :=
   !(q.numPending ≥ maxPendingRequestsPerPeer) && !(h < q.base || h > q.height)
@@ -547,7 +554,7 @@ def Node.apply (sigOK : Nat → SignBytes → Nat → Bool) (n : Node) : Op → 
   | .disconnect id => (n.disconnect id).1
   | .status id b h => (n.recvStatus id b h).1
   | .block id b => (n.recvBlock id b).1
-  | .mkreq => { n with pool := n.pool.makeNextRequester }
+  | .mkreq => { n with pool := n.pool.routineStep }
   | .pick h w => { n with pool := (n.pool.pick h w).1 }
   | .rstep h => { n with pool := (n.pool.rstep h).1 }
   | .rtimeout h => { n with pool := (n.pool.rtimeout h).1 }
